@@ -35,7 +35,8 @@ def get_default_parameters(search_space: vz.SearchSpace) -> vz.ParameterDict:
   builder = vz.SequentialParameterBuilder(search_space)
 
   for pc in builder:
-    if pc.default_value is not None:
+    # NOTE: ParameterConfig does not validate that the default is feasible.
+    if pc.default_value is not None and pc.contains(pc.default_value):
       builder.choose_value(pc.default_value)
     elif pc.type in (
         vz.ParameterType.CATEGORICAL,
